@@ -306,7 +306,19 @@ fn random_history(t: &mut Tape, gates: &Gates) -> Vec<Note> {
                 let bytes: Vec<u8> = (0..160).map(|_| t.byte()).collect();
                 crate::lexeme::layout(&lex, &o, &mut Tape::new(&bytes)).0.text
             };
-            let text = if !kinds.is_empty() && t.flag() {
+            let text = if t.ratio(1, 4) {
+                // a fault of a kind chosen uniformly over all rules, from a unit large enough for it
+                let kd = ALL_FAULTS[t.below(ALL_FAULTS.len())];
+                let mut big = Profile::default();
+                big.prefix = p.prefix.clone();
+                big.max_progs = 1;
+                big.sfc = false;
+                big.config = false;
+                match unit_with_fault_of(kd, &sub, gates, &big) {
+                    Some(fu) => spell(&fu, t),
+                    None => spell(&unit, t),
+                }
+            } else if !kinds.is_empty() && t.flag() {
                 let kd = kinds[t.below(kinds.len())];
                 let s = t.below(unit.sites[kd.index()]);
                 let mut st2 = Tape::new(&sub);
